@@ -17,7 +17,7 @@ CLAIMED = {
     "C03": dict(
         level="fault_enumeration", design="§6 C03",
         technique="fault injection at the parsers' byte sources (scripted reader, simulated socket, real include files): EOF/reset at every offset, every single-byte substitution and bit flip, delimiter deletion/doubling, boundary and huge length fields, UTF-8 at every slicing position, deep nesting; isolated worker processes with a counting allocator, 2 MiB stacks, read budgets and a watchdog",
-        text="For each target (request, response, frame, WebSocket message blocking/non-blocking, JSON, config+include) and each seed message every truncation offset and every single-byte mutant of the families is enumerated and delivered whole and bytewise; oracle: returns Ok/Err (no panic, abort, SIGSEGV), terminates within a read budget/watchdog, peak heap <= 64 KiB + 8x (512x for tree-building parsers) the bytes supplied. Seeds and multi-edit mutants are sampled. Later additions: every contiguous span of 1..24 bytes deleted at every offset; 96 generated seed messages per target in the thorough tier. Also: runs of 1000..100000 empty control frames in front of a data frame.",
+        text="For each target (request, response, frame, WebSocket message blocking/non-blocking, JSON, config+include) and each seed message every truncation offset and every single-byte mutant of the families is enumerated and delivered whole and bytewise; oracle: returns Ok/Err (no panic, abort, SIGSEGV), terminates within a read budget/watchdog, peak heap <= 64 KiB + 8x (512x for tree-building parsers) the bytes supplied. Seeds and multi-edit mutants are sampled. Later additions: every contiguous span of 1..24 bytes deleted at every offset; 96 generated seed messages per target in the thorough tier. Also: runs of 1000..100000 empty control frames in front of a data frame. And runs of up to 1000000 empty lines in front of HTTP messages.",
         note="Trusted: the counting allocator and the announce protocol that attributes a dead worker to a case; Value::parse has no I/O seam (its share is plain input generation); the 256 MiB single-allocation ceiling stands in for real memory exhaustion."),
     "C09": dict(
         level="fault_enumeration", design="§6 C09",
@@ -32,7 +32,7 @@ CLAIMED = {
     "C11": dict(
         level="exploration", design="§6 C11",
         technique="deterministic simulation: real App + websocket_handler on humsim's TCP with a reference RFC 6455 client (own SHA-1/Base64), scripted frame streams with fragmentation/interleaved control frames, delivery cuts inside header/extended length/key, blocking and non-blocking handlers, seeded schedules",
-        text="Seeded client scripts of masked frames (text/binary/continuation/ping/pong/close, payloads to 70 KiB incl. the 125/126/65535/65536 boundaries, 1..5 fragments with interleaved control frames), any Sec-WebSocket-Key or none, byte-wise and header-splitting deliveries, endings by client Close / server drop / FIN / RST. Oracle: 101 with the reference accept key (no key: no upgrade), everything written after the 101 decodes as unmasked frames, server-side messages equal the reference reassembly, one Pong per Ping with the same payload, Close answered and reported, drop sends Close, nothing-yet only while no data frame has started to arrive (judged on the simulator's view of delivered bytes). Later additions: server-initiated messages after idle polls, slow-reading clients, a non-blocking-then-blocking handler mode, a Close between the fragments of a message, empty first fragments and empty continuations, key lengths around every SHA-1 padding boundary, the all-zero mask key. Also: Apps with a connection timeout of 1..5 s and clients pausing up to 3 s after the handshake.",
+        text="Seeded client scripts of masked frames (text/binary/continuation/ping/pong/close, payloads to 70 KiB incl. the 125/126/65535/65536 boundaries, 1..5 fragments with interleaved control frames), any Sec-WebSocket-Key or none, byte-wise and header-splitting deliveries, endings by client Close / server drop / FIN / RST. Oracle: 101 with the reference accept key (no key: no upgrade), everything written after the 101 decodes as unmasked frames, server-side messages equal the reference reassembly, one Pong per Ping with the same payload, Close answered and reported, drop sends Close, nothing-yet only while no data frame has started to arrive (judged on the simulator's view of delivered bytes). Later additions: server-initiated messages after idle polls, slow-reading clients, a non-blocking-then-blocking handler mode, a Close between the fragments of a message, empty first fragments and empty continuations, key lengths around every SHA-1 padding boundary, the all-zero mask key. Also: Apps with a connection timeout of 1..5 s and clients pausing up to 3 s after the handshake. And: after a half-close without a Close frame the drop-time Close is required.",
         note="Trusted: reference codec/handshake; humsim TCP; a Close may be answered by any well-formed Close."),
     "C12": dict(
         level="exploration", design="§6 C12",
@@ -52,7 +52,7 @@ CLAIMED = {
     "C04": dict(
         level="exploration", design="§6 C04",
         technique="deterministic simulation: generated applications (host sub-apps, HTTP and WebSocket routes) served by the real App on the simulated network to 1..4 concurrent keep-alive connections; reference first-match router over an independent DP glob matcher",
-        text="Seeded generation of applications and request sequences (Host absent/exact/wildcard/with port/non-matching; paths matching several, one or no routes; queries; upgrade requests) with every handler answering its identity, observed at every position of a connection's history and under concurrency and seeded schedules; the answer must be the reference router's. Dominated by seeded configuration/input generation (stated in the evidence); sampling, not enumeration. Both runtimes (tokio as twin phase C04T). Also: mixed-case host names spelled exactly as registered; paths with a literal *.",
+        text="Seeded generation of applications and request sequences (Host absent/exact/wildcard/with port/non-matching; paths matching several, one or no routes; queries; upgrade requests) with every handler answering its identity, observed at every position of a connection's history and under concurrency and seeded schedules; the answer must be the reference router's. Dominated by seeded configuration/input generation (stated in the evidence); sampling, not enumeration. Both runtimes (tokio as twin phase C04T). Also: mixed-case host names spelled exactly as registered; paths with a literal *. And paths of 2049..6000 characters.",
         note="Trusted: the reference router and DP glob matcher; origin-form targets; both runtimes (the tokio one as twin phase C04T)."),
     "C07": dict(
         level="exploration", design="§6 C07",
@@ -75,7 +75,7 @@ CLAIMED["C19"] = dict(
 CLAIMED["C20"] = dict(
     level="exploration", design="§6 C20",
     technique="deterministic simulation: the real App::run with a shutdown receiver under the humsim scheduler, 0..16 connections scripted into chosen states at the virtual instant of the signal, pools incl. fully occupied ones, rendezvous and unbounded channels, unspecified bind addresses with the strict-connect knob, rebind after return",
-    text="Seeded traffic states at the instant of the signal (just connected, idle keep-alive, half-sent request, handler running 5 ms / 2 s, 150 KB response to a 512-byte-window reader, WebSocket open), signal before run / before the first connection / with traffic / with the pool occupied. Oracle: run returns Ok within 1 virtual second of the signal, the address can be bound again, a response that started arrives completely, requests fully sent >= 100 virtual ms before the signal are answered (detached workers keep running in the simulation). Later additions: the sender of the shutdown channel is kept alive until the scenario ends (a signal sent before run starts waiting must still end it). Also: applications whose connection condition refuses connections when the signal comes (drain mode / connection limit).",
+    text="Seeded traffic states at the instant of the signal (just connected, idle keep-alive, half-sent request, handler running 5 ms / 2 s, 150 KB response to a 512-byte-window reader, WebSocket open), signal before run / before the first connection / with traffic / with the pool occupied. Oracle: run returns Ok within 1 virtual second of the signal, the address can be bound again, a response that started arrives completely, requests fully sent >= 100 virtual ms before the signal are answered (detached workers keep running in the simulation). Later additions: the sender of the shutdown channel is kept alive until the scenario ends (a signal sent before run starts waiting must still end it). Also: applications whose connection condition refuses connections when the signal comes (drain mode / connection limit). And: 80..100 silent connections (one case in forty).",
     note="Trusted: humsim scheduler/TCP/clock; threaded runtime (mpsc receiver) and, as twin phase C20T, the tokio runtime (CancellationToken).")
 
 NA = {
